@@ -16,7 +16,7 @@ from twisted.internet import defer as _defer
 
 LOSS_REASONS = [_neterror.ConnectionDone, _neterror.ConnectionLost, _neterror.ConnectionAborted]
 ADVANCE_TABLE = [0.0, 0.05, 0.1, 0.3, 0.5, 1.0, 1.5, 2.0, 3.0, 4.0, 5.0, 7.0, 10.0, 30.0, 100.0, 1000.0]
-LATE_TABLE = [2.0 ** -30, 0.001, 0.05, 0.3]
+LATE_TABLE = [0.0, 0.001, 0.05, 0.3]
 TIMEOUT_TABLE = [1, 2, 4, 7, 100, 1024, 3, 50]
 BW_TABLE = [1, 10, 100, 1000, 10000, 100000, 10000000, 2.5]
 FACTOR_TABLE = [1, 2, 4, 1.5]
@@ -164,7 +164,7 @@ class World(object):
     MAX_FIRINGS = 4000
     MAX_EVENTS = 60000
     T_MAX = 1.0e9
-    LATE = 2.0 ** -30
+    LATE = 0.0            # extra lateness of a timer pass (op 'late'); boot.ProxyReactor.READ_LATE is always there
 
     def __init__(self, cfg):
         self.cfg = cfg
@@ -898,7 +898,11 @@ class World(object):
         if t + self.late > clock.rightNow:
             clock.rightNow = t + self.late
         self.t_nom = max(self.t_nom, t)
-        clock.advance(0)
+        REACTOR.in_pass = True
+        try:
+            clock.advance(0)
+        finally:
+            REACTOR.in_pass = False
         return True
 
     def op_late(self, code):
